@@ -303,6 +303,36 @@ def check_range_dim(h, ctx, rng, ticks, rounds):
         ctx.violation("range.axis:raises_%s" % type(e).__name__, dict(rep, error=repr(e)), dict(rep, fn="axis", start=0, count=n))
 
 
+def check_range_dim_restated(h, ctx, rng, ticks):
+    """The descriptor object that has already answered queries keeps answering from the ticks the FILE holds: the ticks are
+    replaced through another handle of the same dimension (and, for a dimension that takes its ticks from an array, by
+    writing to that array); the first object must follow."""
+    n = len(ticks)
+    da = h.new_array(n)
+    linked = rng.random() < 0.5
+    if linked:
+        da.write_direct(h.np.array([float(t) for t in ticks]))
+        rd = da.append_range_dimension_using_self()
+    else:
+        rd = da.append_range_dimension([float(t) for t in ticks])
+    rep = {"dim": "range", "ticks": [str(t) for t in ticks], "restated": "linked" if linked else "setter_on_other_handle"}
+    for p in (ticks[0], ticks[-1] + 1):
+        h.index_of("range", rd, lambda i: ticks[i], n, p, h.MODES[1], tick_class(ticks, p), ("restated", "before"), rep)
+    new = [t * 2 + 1 for t in ticks]
+    if linked:
+        da.write_direct(h.np.array([float(t) for t in new]))
+    else:
+        da.dimensions[0].ticks = [float(t) for t in new]
+    rep2 = dict(rep, new_ticks=[str(t) for t in new])
+    cand = sorted({new[0], new[-1], new[0] - 1, new[-1] + 1} | {t + F("0.25") for t in new[:2]})
+    for p in cand:
+        for m in h.MODES:
+            h.index_of("range", rd, lambda i: new[i], n, p, m, tick_class(new, p), ("restated", "after", linked), rep2)
+    for sm in h.SMODES:
+        h.range_indices("range", rd, lambda i: new[i], n, new[0], new[-1], sm, "restated", (linked,), rep2)
+    ctx.count("restated_tick_sequences")
+
+
 def gen_ticks(rng):
     n = rng.randint(1, 8)
     base = rng.choice([-5, 0, 0, 3, F("-0.5"), 1000])
@@ -341,6 +371,8 @@ def run_shard(spec, ctx):
         for ti in range(spec["range_dims"]):
             ticks = fixed[ti] if (ti < len(fixed) and spec["i"] == 0) else gen_ticks(rng)
             ctx.guarded("range", check_range_dim, h, ctx, rng, ticks, spec["rand_rounds"])
+            if all(x < y for x, y in zip(ticks[:-1], ticks[1:])):
+                ctx.guarded("range_restated", check_range_dim_restated, h, ctx, rng, ticks)
         for nl in [0, 1, 2, 3, 4, 6]:
             if (nl % NSHARDS) == spec["i"] or ctx.tier == "thorough":
                 ctx.guarded("set", check_set_dim, h, ctx, nl)
